@@ -57,6 +57,7 @@ type CallsiteSpec struct {
 	ViaGo    string // "" any, "go" only go, "sync" only non-go
 	Hits     int
 	Snapshot bool // save the state before this call: later clauses read it with snap(e)
+	MayPanic bool // the call may panic: the panic path (deferred calls, recover, Recover block) is explored too
 	Skip     bool // do not execute the call itself (treated as no-op after the clauses)
 	Havoc    bool // force havoc-all at this call even if a contract exists
 }
@@ -446,7 +447,12 @@ func (db *SpecDB) LoadSpecFile(path, pkg string, assumed bool) error {
 			pat, tail := splitWord(rest)
 			curCS = &CallsiteSpec{Pattern: pat}
 			for _, w := range strings.Fields(tail) {
+				if strings.HasPrefix(w, "//") {
+					break
+				}
 				switch w {
+				case "maypanic":
+					curCS.MayPanic = true
 				case "go", "sync":
 					curCS.ViaGo = w
 				case "skip":
